@@ -8,6 +8,7 @@ import (
 	"go/token"
 	"os"
 	"regexp"
+	"sort"
 
 	"github.com/reedom/convergen/pkg/builder"
 	"github.com/reedom/convergen/pkg/builder/model"
@@ -92,13 +93,31 @@ func NewParser(srcPath, dstPath string) (*Parser, error) {
 		pkgNames[path] = imp.Name
 	}
 
+	imports := util.NewImportNames(fileSrc.Imports, pkgNames)
+
+	// A package that only other files of this package import can still appear in the
+	// generated code (as the type of a struct field). Refer to it by its package name;
+	// the import itself is added when the generated code is formatted.
+	siblingOnly := make([]string, 0)
+	for path := range pkgNames {
+		if _, ok := imports[path]; !ok {
+			siblingOnly = append(siblingOnly, path)
+		}
+	}
+	sort.Strings(siblingOnly)
+	for _, path := range siblingOnly {
+		if _, taken := imports.LookupPath(pkgNames[path]); !taken {
+			imports[path] = pkgNames[path]
+		}
+	}
+
 	return &Parser{
 		srcPath: fileSet.Position(fileSrc.Pos()).Filename,
 		fset:    fileSet,
 		file:    fileSrc,
 		pkg:     pkgs[0],
 		opts:    option.NewOptions(),
-		imports: util.NewImportNames(fileSrc.Imports, pkgNames),
+		imports: imports,
 	}, nil
 }
 
